@@ -34,12 +34,16 @@ def _alphabet(tier):
     if tier == 'quick':
         names = ['A', 'Fa', 'Fb', 'Fc', 'Gba', 'Fd', 'Fa1', 'ExFx', 'A@2', 'Fa@1', '0R1', '2R0']
     def make(name):
+        if name.startswith('fill'):
+            return swnode(G.Atomic(1 + int(name[4:]) % 4, 5 + int(name[4:]) // 4), None)
         if name in acc:
             return anode(*acc[name])
         s, w = sent[name]
         return swnode(s, w)
     def facts(name):
         "(constants, worlds) the node mentions -- the reference"
+        if name.startswith('fill'):
+            return set(), set()
         if name in acc:
             return set(), set(acc[name])
         s, w = sent[name]
@@ -126,6 +130,16 @@ class BranchModel(seqx.Model):
                 return f'branch {i}: new_world() = {nw} already occurs on the branch (nodes {st.ref[i]})'
             if [str(n.get("sentence")) for n in b] != [str(self.make(n).get('sentence')) for n in st.ref[i]]:
                 return f'branch {i}: node list differs from the history'
+            # lookups by properties agree with the node list (the index is consulted on branches with more than six nodes)
+            for nm in self.names:
+                probe = dict(self.make(nm))
+                # has()/find() match every node that carries all the given properties
+                want = any(all(dict(self.make(n2)).get(k_) == v_ for k_, v_ in probe.items()) for n2 in st.ref[i])
+                if b.has(probe) != want:
+                    return f'branch {i}: has({nm}) is {b.has(probe)} but the node is {"" if want else "not "}on the branch (nodes {st.ref[i]})'
+                f = b.find(probe)
+                if (f is not None) != want or (f is not None and f not in b):
+                    return f'branch {i}: find({nm}) returns a node that is not on the branch'
             if i != touched and i < len(before) and self._observe(b) != before[i]:
                 return f'branch {i} changed observably although the operation was on branch {touched}'
         return None
@@ -138,15 +152,19 @@ class BranchModel(seqx.Model):
     def opstr(self, op):
         return f'copy({op[1]})' if op[0] == 'copy' else f'append[{op[1]}]({op[2]})'
 
-def _e3(tier):
+def _e3(tier, prefill=False):
     m = BranchModel(tier)
-    res = seqx.bfs(m, max_depth=4 if tier == 'quick' else 5)
+    init = [('append', 0, f'fill{j}') for j in range(7)] if prefill else []
+    res = seqx.bfs(m, max_depth=(3 if tier == 'quick' else 4) if prefill else (4 if tier == 'quick' else 5), init_hist=init)
     viols = []
     for v in res['violations']:
         viols.append(dict(hist=[m.opstr(o) for o in v['hist']], op=m.opstr(v['op']), err=v['err']))
     samples = [dict(history=[m.opstr(o) for o in h], state=str(k)[:200]) for k, h in list(res['witnesses'].items())[-3:]]
     return dict(states=res['states'], transitions=res['transitions'], max_depth=res['max_depth'], capped=res['capped'],
                 violations=viols, samples=samples)
+
+def _e3_task(task):
+    return _e3(*task)
 
 # ----------------------------------------------------------------------------
 # E1 monitor
@@ -230,7 +248,9 @@ def _e1(task):
     return out
 
 def run(ctx):
-    e3 = _e3(ctx.tier)
+    e3a, e3b = pmap(_e3_task, [(ctx.tier, False), (ctx.tier, True)])
+    e3 = dict(states=e3a['states'] + e3b['states'], transitions=e3a['transitions'] + e3b['transitions'], max_depth=e3a['max_depth'],
+              capped=e3a['capped'] or e3b['capped'], violations=e3a['violations'] + e3b['violations'], samples=e3a['samples'] + e3b['samples'][:1])
     violations = []
     for v in e3['violations']:
         violations.append(dict(sig=('branch|' + '>'.join(v['hist'] + [v['op']])).replace(' ', ''),
@@ -254,7 +274,7 @@ def run(ctx):
         evaluations=e3['transitions'] + execs, distinct_nontrivial=e3['states'],
         rule=(f'E3: BFS over append/copy histories on real Branch objects (alphabet of {12 if ctx.quick else 16} nodes incl. out-of-order, '
               f'wrapping (s -> a1) and world-tagged constants, access nodes; <= {2 if ctx.quick else 3} live branches) to depth '
-              f'{e3["max_depth"]}; a state is per branch (constants, next constant, worlds, next world) -- the only fields append() reads; '
+              f'{e3["max_depth"]} from the empty branch and (one level less) from a branch already holding seven filler nodes, where lookups go through the branch index; every has()/find() by node properties is compared with the node list; a state is per branch (constants, next constant, worlds, next world) -- the only fields append() reads; '
               'E1: witness steps of FO and modal proofs under the default schedule and 1 deviation'),
         e3_max_depth=e3['max_depth'], e3_depth_capped=e3['capped'], e1_executions=execs,
         e1_witness_steps_checked=sum(r['witness_steps'] for r in res),
@@ -270,6 +290,10 @@ def replay(data, ctx):
             for op in m.ops(st):
                 if m.opstr(op) == text:
                     return op
+            import re
+            mm = re.fullmatch(r'append\[(\d+)\]\((fill\d+)\)', text)
+            if mm:
+                return ('append', int(mm.group(1)), mm.group(2))
             raise RuntimeError(text)
         for text in data['hist']:
             hist.append(find(m.build(hist), text))
